@@ -28,6 +28,7 @@ import LogosModel.TypeSubst
 import LogosModel.Panic
 import LogosModel.Utf8Enc
 import LogosModel.Chunked
+import LogosModel.Reslice
 import LogosModel.PrioritySat
 import LogosModel.Look.Utf8ClosedC
 import Std.Data.HashMap
@@ -498,6 +499,9 @@ def answer (c : Case) (q : List String) : String :=
   | ["FEED", cuts, hex] =>
     -- chunked feeding (Chunked.feed): partial lexers over the prefixes of the given lengths, then an ordinary lexer
     streamStr c (feed c.graph c.cb c.utf8 (unhex hex) ((cuts.splitOn ",").filterMap String.toNat?) 0)
+  | ["FEEDR", cuts, hex] =>
+    -- chunked feeding by re-slicing (Reslice.feedR): partial lexers over the not yet lexed part of each buffer, spans moved
+    streamStr c (feedR c.graph c.cb c.utf8 (unhex hex) ((cuts.splitOn ",").filterMap String.toNat?) 0)
   | ["SPEC", hex] => specStr c (unhex hex)
   | ["CALLS", hex] => callsStr c (unhex hex)
   | ["SPECCALLS", hex] => specCallsStr c (unhex hex)
